@@ -414,6 +414,8 @@ def make_pair(mk, tables):
         return (instrument(C["CSERenamer"], only_cse), (), instrument(C["Renamer"]), ())
     if m == "ident":
         return (instrument(C["CachedRenamer"]), (), instrument(C["Renamer"]), ())
+    if m == "pident":      # round 5: the stock pair - leaves come back as the very same objects
+        return (instrument(C["CachedIdentityMapper"]), (), instrument(C["IdentityMapper"]), ())
     if m == "coll":
         return (instrument(C["CachedVarCollector"]), (), instrument(C["VarCollector"]), ())
     if m == "count":
